@@ -3,6 +3,7 @@ package main
 // Calls: builtins, conversions, library models, contract application, closure inlining.
 
 import (
+	"sort"
 	"strconv"
 	"fmt"
 	"golang.org/x/tools/go/packages"
@@ -152,6 +153,7 @@ func (u *Unit) call(st *State, x *ast.CallExpr) *Val {
 		}
 		key := funcKey(fn)
 		if ct := u.eng.lookupContract(key, fn); ct != nil {
+			u.callerHoldsLock(st, ct, x, recv)
 			args := u.evalArgs(st, x, fn.Type().(*types.Signature))
 			if ct.Flags["functional"] == "" {
 				u.nonFunctional(st, "calls "+name+" (not functional)")
@@ -213,6 +215,42 @@ func (u *Unit) call(st *State, x *ast.CallExpr) *Val {
 	u.note("call of function value without functype contract havocs the heap: " + exprString(x.Fun))
 	u.havocAllHeap(st, "call of function value "+exprString(x.Fun))
 	return u.callResult(st, resT, "fv")
+}
+
+// callerHoldsLock: a callee documented `requires-lock` ("caller holds the lock") touches guarded fields without taking
+// the lock itself, so every call site must hold, in write mode, each mutex that guards fields of the receiver's type
+// (`requires-lock r`: read mode suffices). A caller that is itself `requires-lock` passes the duty on to its callers.
+func (u *Unit) callerHoldsLock(st *State, ct *Contract, x *ast.CallExpr, recv *Val) {
+	mode := ct.Flags["requires-lock"]
+	if mode == "" || recv == nil || u.quiet > 0 {
+		return
+	}
+	if u.ct != nil && (u.ct.Flags["requires-lock"] != "" || u.ct.Flags["constructor"] != "") {
+		return
+	}
+	sel, ok := ast.Unparen(x.Fun).(*ast.SelectorExpr)
+	if !ok {
+		return
+	}
+	ts := u.typeSpecOf(recv.T)
+	if ts == nil {
+		return
+	}
+	base := exprString(sel.X)
+	var mus []string
+	for mu := range ts.Guarded {
+		mus = append(mus, mu)
+	}
+	sort.Strings(mus)
+	for _, mu := range mus {
+		held := st.held[base+"."+mu]
+		ok := held == "w" || (mode == "r" && held == "r")
+		goal := "false"
+		if ok {
+			goal = "true"
+		}
+		u.oblige(st, fmt.Sprintf("guarded.call.%s@expr.%d", sel.Sel.Name, u.posRank(x.Pos())), "guarded", fmt.Sprintf("call of %s.%s (requires-lock) with %s.%s held", base, sel.Sel.Name, base, mu), goal, false)
+	}
 }
 
 // litContract: the contract block of a function literal directly nested in this unit's body (key <unit>$<n>).
